@@ -50,6 +50,8 @@ def snap(o, depth=0):
         if type(o) is dict:
             return ("dict", items)
         extra = [type(o).__name__, getattr(o, "name", None)]
+        if hasattr(o, "_variables"):      # bookkeeping is part of the model's observable state (variables, degree, max_index)
+            extra.append((tuple(sorted(map(repr, o._variables))), repr(o._degree), o._num_binary_variables))
         if hasattr(o, "_mapping"):
             extra.append(tuple(sorted((repr(k), v) for k, v in o._mapping.items())))
         if hasattr(o, "_constraints"):
